@@ -259,7 +259,7 @@ def stepSeq (g : G) : G :=
 
 /-- The retry loop processes the head of its queue (`retry` + `overwrite`): if the key's newest
 version is still the queued revision, rewrite it at a fresh revision under CAS and report it. The head
-is popped whatever the rewrite returned. -/
+is popped only when the rewrite succeeded or failed its condition. -/
 def stepRetry (g : G) (f : Fault) : G :=
   match g.retryQ with
   | [] => g
@@ -274,7 +274,8 @@ def stepRetry (g : G) (f : Fault) : G :=
         let flag : Bytes := if isTomb val then [0] else []
         let (r, st) := doCommit g.cfg g.store
           [BOp.cas (idxKey w.key) (be8 rev ++ flag) (be8 w.rev ++ flag), BOp.put (encode w.key rev) val] f
-        let g := { g with store := st, retryQ := rest }
+        -- the head is popped only when the rewrite succeeded or failed its condition (fixes 35be7da, f99b060)
+        let g := { g with store := st, retryQ := if r == CommitRes.ok || r.isCas then rest else w :: rest }
         let g := if applied r f then g.logWrite w.key rev (if isTomb val then none else some val) (.rev w.rev) else g
         g.notify { w with rev := rev, valid := r == .ok, uncertain := r == .uncertain }
 
